@@ -196,6 +196,7 @@ def execute(sc):
     c = rctx.new_run(cfg["seed"])
     seams.seed_global_streams(cfg["seed"])
     restarts = 0
+    prev_n = 0
     try:
         with seams.Seams(clock=seams.FakeClock()):
             try:
@@ -245,6 +246,12 @@ def execute(sc):
                 n = S.shape[0]
                 if n == 0:
                     continue
+                # rows and log-probabilities of the full chain are aligned: each row carries its own value
+                bad = oracles.check_probs_belong(h.chain, h.target, h.T, start=max(0, prev_n - 1), label="%s " % h.kind)
+                prev_n = n
+                if bad:
+                    _viol(V, "readout.aligned", "after %r: sample and log-probability read-outs are not aligned row for row: %s" % (op[:-1], bad[0]))
+                    break
                 for q in queries:
                     if V:
                         break
